@@ -84,7 +84,7 @@ PLANS = {
     },
     "C06": {
         "level": "exploration",
-        "rule": "cluster runs with <= f crashed nodes (s2), heavy pre-GST delays (s3), late-booting nodes whose round timers are out of phase, and s2b: round-1 leader absent + one node booting 0.80..0.98 of a timeout late, in half of the runs with proposals slower (timeout/20..timeout/10) than all other messages (1..10 ms); oracle: every live node's highest committed round grows in every window W = 6(f+1)*timeout + sync_retry + 2*5s after stabilisation; non-trivial = run with a crash or with an asynchronous prefix; distinct = distinct Core-event fingerprints",
+        "rule": "cluster runs with <= f crashed nodes (s2), heavy pre-GST delays (s3), late-booting nodes whose round timers are out of phase, and s2b: round-1 leader absent + one node booting 0.80..0.98 of a timeout late, in half of the runs with proposals slower (timeout/20..timeout/10) than all other messages (1..10 ms); oracle: every live node's highest committed round grows in every window W = 6(f+1)*timeout + sync_retry + 2*5s after stabilisation, and (local obligation, always on) a node that enters a round it leads through a timeout certificate proposes before it leaves that round or times out in it; non-trivial = run with a crash or with an asynchronous prefix; distinct = distinct Core-event fingerprints",
         "assumptions": ["bounded restatement of liveness (DESIGN.md C06)", "no frame between live nodes is lost; delays <= timeout/10 after GST"],
         "quick": [J("cluster", "s2", 48, per_process=3, **C06_PARAMS), J("cluster", "s3", 48, per_process=3, **C06_PARAMS), J("cluster", "s2", 32, per_process=2, equal_stakes=1, **C06_PARAMS), J("cluster", "s2b", 64, per_process=4, n=4, equal_stakes=1, timeout_ms=1000, hi_ms=30, sync_retry_ms=1000, duration_ms=120000)],
         "thorough": [J("cluster", "s2", 2000, **C06_PARAMS), J("cluster", "s3", 2000, **C06_PARAMS), J("cluster", "s2b", 3000, per_process=10, n=4, equal_stakes=1, timeout_ms=1000, hi_ms=30, sync_retry_ms=1000, duration_ms=120000)],
